@@ -61,6 +61,11 @@ def perturbed(ctx, t, bi, n):
         if ss:
             i, info = r.choice(ss)
             out.append(("definition through a wrapper call: " + lines[0], tg.render(t, plant_s=(i, lines))))
+    # the name of a blob / an enum used as a value (the emitted Lua would read a variable that is never defined)
+    for lines in (['Zb.a = 3'], ['print(Zb.a + 1)'], ['zt1 := Zb', 'print(zt1.a + 1)'], ['zt2 :: Ze', 'print(zt2 == zt2)', 'zt2.P']):
+        if ss:
+            i, info = r.choice(ss)
+            out.append(("type name as a value: " + lines[0], tg.render(t, plant_s=(i, lines))))
     # a field the blob does not have, read through `self` in a method and used
     for lines in (['zs5 :: Zs { n: 1, get: fn -> int do self.nope_field end }', 'print(zs5.get() + 1)'],
                   ['zs5 :: Zs { n: 1, get: fn -> int do', '    zg :: fn -> int do self.nope_field end', '    zg()', 'end }', 'print(zs5.get() + 1)'],
